@@ -644,6 +644,14 @@ fn rand_history(o: &mut Out, r: &mut Rng, d: &GDict, probes: &dyn Fn(&mut Out), 
                 ls.push(format!("add_avp {} {} 0", oc.code, vend(oc.vendor)));
                 m.avps.push(GA { code: oc.code, vendor: oc.vendor, flags: 0, v: GV::Oct(vec![]) });
             }
+            0..=5 if r.chance(1, 30) => {
+                // a Result-Code (268) given as an Unsigned32 - success, protocol errors, transient and permanent failures:
+                // what an AVP says is no business of the message header
+                let rc = *r.pick(&[2001u32, 3001, 3004, 3999, 3000, 4001, 5012, 1001]);
+                ls.push(format!("val u32 {}", rc));
+                ls.push("add_avp 268 - 64".into());
+                m.avps.push(GA { code: 268, vendor: None, flags: 0x40, v: GV::U32(rc) });
+            }
             0..=5 => {
                 let dl = r.below(4) as usize;
                 let mut a = avp(r, d, dl, 3);
@@ -2247,6 +2255,27 @@ fn gen_c08(o: &mut Out, r: &mut Rng, d: &GDict, tier: &str, cuts: bool) {
                 o.line(&format!("servemany {} {}", count, hex(&req.encode(&mut None))));
             }
         }
+        // an answer that cannot be encoded only at its very end (tens of KiB of fine AVPs, then a Time the wire cannot carry):
+        // nothing of it goes out - not the part that "was ready" either
+        for big in [100usize, 33000, 70000] {
+            let reqs = [small_messages(r, d)[1].clone(), small_messages(r, d)[0].clone()];
+            let rf: Vec<Vec<u8>> = reqs.iter().map(|m| m.encode(&mut None)).collect();
+            let first = small_messages(r, d)[2].clone();
+            o.case(&format!("serve unencodable=1 reqlens={},{} anslens={},0 bigbad={}", rf[0].len(), rf[1].len(), first.encode(&mut None).len(), big));
+            o.line("mclear");
+            let mut ls = vec![];
+            first.ops(r, &mut ls);
+            o.lines(&ls);
+            o.line("msave");
+            o.line("new 272 4 0 7 8");
+            o.line("clear");
+            o.line(&format!("val octn {} 5a", big));
+            o.line(&format!("add_avp {} - 0", d.by_type(T_OCT)[0].code));
+            o.line("val time 7258118400 0");
+            o.line(&format!("add_avp {} - 64", d.by_type(T_TIME)[0].code));
+            o.line("msave");
+            o.line(&format!("serve a0,a1 d:{} -", hex(&rf.concat())));
+        }
         // answers far beyond the size of anything read: 1 MiB + 4 and 3 MiB (the read limit is no write limit)
         let oc = d.by_type(T_OCT)[0].code;
         for big in [(1usize << 20) - 28, (1 << 20) - 24, 3 << 20] {
@@ -2519,7 +2548,7 @@ fn gen_c08(o: &mut Out, r: &mut Rng, d: &GDict, tier: &str, cuts: bool) {
 
 fn gen_c10(o: &mut Out, r: &mut Rng, tier: &str) {
     let thorough = tier == "thorough";
-    let faults = ["malformed", "deepnest", "oversized", "short", "stall_midframe", "stall_handshake", "half_hello", "reset", "panic", "garbage_close", "hello_close", "plain_req_close", "stall_announce_max", "panic_sync"];
+    let faults = ["malformed", "unknown_avp", "deepnest", "oversized", "short", "stall_midframe", "stall_handshake", "half_hello", "reset", "panic", "garbage_close", "hello_close", "plain_req_close", "stall_announce_max", "panic_sync"];
     let whens = ["before", "during", "after"];
     // the scenario table: fault kind x moment x listener kind; number of well-behaved clients and of faulty peers vary
     for tls in [0, 1] {
@@ -2546,6 +2575,11 @@ fn gen_c10(o: &mut Out, r: &mut Rng, tier: &str) {
             let many = if thorough { 1100 } else { 130 };
             o.case(&format!("listener many fault={} tls={}", f, tls));
             o.line(&format!("lsn tls={} good=2 reqs=3 fault={} when=before nfaulty={}", tls, f, many));
+            // more handler panics than any table of slots or permits holds (4096)
+            if tls == 0 && f == "panic" {
+                o.case(&format!("listener many fault={} tls={}", f, tls));
+                o.line(&format!("lsn tls={} good=2 reqs=3 fault={} when=before nfaulty={}", tls, f, if thorough { 9000 } else { 4200 }));
+            }
             // more stalled connections than any default pool of threads or permits holds (512, 1024)
             if tls == 0 && f == "stall_midframe" {
                 o.case(&format!("listener many fault={} tls={}", f, tls));
